@@ -75,8 +75,12 @@ def dist_lemma(name, sa, sb):
     return hn
 
 
+_VARS = []
+
+
 def expand(node, name, steps):
-    """returns canonical term list of node; appends proof steps establishing src(node) == sum_str(terms)"""
+    """returns the canonical term list of node; appends to `steps` what the CALLER needs to know src(node) == sum_str(terms).
+    Every product node becomes a lemma of its own (small solver contexts, checked in parallel); the caller just calls it."""
     if isinstance(node, ast.Name):
         return [(1, (node.id,))]
     if isinstance(node, ast.Constant):
@@ -87,34 +91,44 @@ def expand(node, name, steps):
         r = [(-s, v) for s, v in t]
         steps.append('assert(%s == %s);' % (src(node), sum_str(r)))
         return r
-    a = expand(node.left, name, steps)
-    b = expand(node.right, name, steps)
-    if isinstance(node.op, ast.Add):
-        r = a + b
+    if isinstance(node.op, (ast.Add, ast.Sub)):
+        a = expand(node.left, name, steps)
+        b = expand(node.right, name, steps)
+        r = a + (b if isinstance(node.op, ast.Add) else [(-s, v) for s, v in b])
         steps.append('assert(%s == %s);' % (src(node), sum_str(r)))
         return r
-    if isinstance(node.op, ast.Sub):
-        r = a + [(-s, v) for s, v in b]
-        steps.append('assert(%s == %s);' % (src(node), sum_str(r)))
-        return r
-    # product of two sums
+    # product of two sums: a lemma of its own
+    inner = []
+    a = expand(node.left, name, inner)
+    b = expand(node.right, name, inner)
     hn = dist_lemma(name, [s for s, _ in a], [s for s, _ in b])
     args = [mono_str(v) for _, v in a] + [mono_str(v) for _, v in b]
-    steps.append('%s(%s);' % (hn, ', '.join(args)))
+    inner.append('%s(%s);' % (hn, ', '.join(args)))
     r = []
+    batch = []
     for s, u in a:
         for t, w in b:
             vs = tuple(sorted(u + w))
             lhs = '(%s * %s)' % (mono_str(u), mono_str(w))
-            if lhs != mono_str(vs) and not (len(u) == 1 and len(w) == 1 and lhs == mono_str(vs)):
-                steps.append('assert(%s == %s) by(nonlinear_arith);' % (lhs, mono_str(vs)))
+            if lhs != mono_str(vs) and (lhs, mono_str(vs)) not in batch:
+                batch.append((lhs, mono_str(vs)))
             r.append((s * t, vs))
-    steps.append('assert(%s == %s);' % (src(node), sum_str(r)))
+    # monomial reorderings: ONE per by(nonlinear_arith) query (batches of 6 or 20 conjuncts made Z3 hang for > 15 min)
+    B = int(__import__('os').environ.get('POLYPROOF_BATCH', '1'))
+    for k in range(0, len(batch), B):
+        inner.append('assert(%s) by(nonlinear_arith);' % ' && '.join('%s == %s' % x for x in batch[k:k + B]))
+    inner.append('assert(%s == %s);' % (src(node), sum_str(r)))
+    ln = '%s_n%d' % (name, _hid[0])
+    _hid[0] += 1
+    _helpers.append('proof fn %s(%s)\n    ensures %s == %s\n{\n%s\n}' % (
+        ln, ', '.join('%s: real' % v for v in _VARS), src(node), sum_str(r), '\n'.join('    ' + x for x in inner)))
+    steps.append('%s(%s);' % (ln, ', '.join(_VARS)))
     return r
 
 
 def main():
     name, vs, lhs, rhs = sys.argv[1], sys.argv[2].split(), sys.argv[3], sys.argv[4]
+    _VARS.extend(vs)
     steps = []
     l = ast.parse(lhs, mode='eval').body
     r = ast.parse(rhs, mode='eval').body
